@@ -912,16 +912,20 @@ func (ob *SuObject) Sort(th *Thread, lt Value) {
 			return x.Compare(y)
 		})
 	} else {
+		// sort a copy because sorting only blocks writers,
+		// readers can still access ob.list while we are unlocked
+		list := slc.Clone(ob.list)
 		func() {
 			ob.sorting = true
 			defer func() { ob.sorting = false }()
 			ob.Unlock() // can't hold lock while calling arbitrary code
 			defer ob.Lock()
-			sort.SliceStable(ob.list, func(i, j int) bool {
-				return ToBool(th.Call(lt, ob.list[i], ob.list[j]))
+			sort.SliceStable(list, func(i, j int) bool {
+				return ToBool(th.Call(lt, list[i], list[j]))
 			})
 			// note: could become concurrent while unlocked
 		}()
+		ob.list = list
 	}
 }
 
